@@ -233,6 +233,33 @@ Definition classify (t : token) : ltok :=
 
 Definition kw_mem (n : str) (kw : list (str * expr)) : bool := existsb (fun p => str_eqb n (fst p)) kw.
 
+(* constructor tests written so that the compiled pattern matches stay small *)
+Definition ttag (t : token) : N :=
+  match t with
+  | TInt _ => 0 | TFloat _ => 1 | TStr _ => 2 | TBool _ => 3 | TIdent _ => 4
+  | TMul => 5 | TDiv => 6 | TFloorDiv => 7 | TMod => 8 | TPlus => 9 | TMinus => 10 | TPower => 11
+  | TLt => 12 | TGt => 13 | TLe => 14 | TGe => 15 | TEq => 16 | TNe => 17 | TTilde => 18 | TPipe => 19
+  | TAssign => 20 | TDot => 21 | TQDot => 22 | TQLBracket => 23 | TComma => 24 | TColon => 25
+  | TBang => 26 | TLBracket => 27 | TRBracket => 28 | TLParen => 29 | TRParen => 30 | TLBrace => 31
+  | TRBrace => 32 | TSpread => 33 | TClosingTagStart => 34 | TVarEnd => 35
+  end%N.
+(* same constructor *)
+Definition tis (a b : token) : bool := N.eqb (ttag a) (ttag b).
+Definition hd_is (ts : list token) (b : token) : bool :=
+  match ts with t :: _ => tis t b | [] => false end.
+Definition as_ident (t : token) : option str := match t with TIdent s => Some s | _ => None end.
+(* keyword class of the first token (KPlain when it is not an identifier) *)
+Definition hd_kw (ts : list token) : kw :=
+  match ts with
+  | t :: _ => match as_ident t with Some s => kw_of s | None => KPlain end
+  | [] => KPlain
+  end.
+Definition mkey_of_tok (t : token) : option mkey :=
+  match t with
+  | TStr s => Some (MKStr s) | TInt z => Some (MKInt z) | TBool b => Some (MKBool b)
+  | _ => None
+  end.
+
 Section Body.
   Variable bp : bp_table.
   Variable maxb maxdim : nat.   (* MAX_NUM_LEFT_BRACKETS, MAX_DIMENSION_ARRAY *)
@@ -244,47 +271,53 @@ Section Body.
   Fixpoint kwargs_loop (k : nat) (c : nat * nat) (acc : list (str * expr)) (ts : list token)
     : option (list (str * expr) * list token) :=
     match k with 0 => None | S k' =>
-    match ts with
-    | TRParen :: _ => Some (acc, ts)
-    | _ =>
-      let after_comma :=
-        match acc with
-        | [] => Some ts
-        | _ => match ts with TComma :: ts' => Some ts' | _ => None end
-        end in
-      match after_comma with
-      | None => None
-      | Some (TRParen :: ts') => Some (acc, TRParen :: ts')
-      | Some (TIdent n :: TAssign :: ts2) =>
-          if kw_mem n acc then None else
-          match P c 0 ts2 with
-          | Some (v, ts3) => kwargs_loop k' c (acc ++ [(n, v)]) ts3
+    if hd_is ts TRParen then Some (acc, ts) else
+    let after_comma :=
+      match acc with
+      | [] => Some ts
+      | _ => if hd_is ts TComma then Some (tl ts) else None
+      end in
+    match after_comma with
+    | None => None
+    | Some ts1 =>
+      if hd_is ts1 TRParen then Some (acc, ts1) else
+      match ts1 with
+      | t1 :: t2 :: ts2 =>
+          match as_ident t1 with
+          | Some n =>
+              if tis t2 TAssign then
+                if kw_mem n acc then None else
+                match P c 0 ts2 with
+                | Some (v, ts3) => kwargs_loop k' c (acc ++ [(n, v)]) ts3
+                | None => None
+                end
+              else None
           | None => None
           end
-      | Some _ => None
+      | _ => None
       end
     end end.
 
   Definition parse_kwargs (c : nat * nat) (ts : list token) : option (list (str * expr) * list token) :=
-    match ts with
-    | TLParen :: ts1 =>
-        match kwargs_loop (S (List.length ts1)) c [] ts1 with
-        | Some (kw, TRParen :: ts2) => Some (kw, ts2)
-        | _ => None
-        end
-    | _ => None
-    end.
+    if hd_is ts TLParen then
+      match kwargs_loop (S (List.length ts)) c [] (tl ts) with
+      | Some (kw, ts2) => if hd_is ts2 TRParen then Some (kw, tl ts2) else None
+      | None => None
+      end
+    else None.
 
   (* parse_filter / parse_test (512-550): name, then kwargs when a `(` follows *)
   Definition parse_named (c : nat * nat) (ts : list token) : option (str * list (str * expr) * list token) :=
     match ts with
-    | TIdent n :: ts1 =>
-        match ts1 with
-        | TLParen :: _ =>
-            match parse_kwargs c ts1 with Some (kw, ts2) => Some (n, kw, ts2) | None => None end
-        | _ => Some (n, [], ts1)
+    | t :: ts1 =>
+        match as_ident t with
+        | Some n =>
+            if hd_is ts1 TLParen then
+              match parse_kwargs c ts1 with Some (kw, ts2) => Some (n, kw, ts2) | None => None end
+            else Some (n, [], ts1)
+        | None => None
         end
-    | _ => None
+    | [] => None
     end.
 
   (* parse_subscript (212-287); ts starts at the `[` / `?[` *)
@@ -295,35 +328,32 @@ Section Body.
   Definition parse_subscript (c : nat * nat) (e : expr) (ts : list token) : pres :=
     match ts with
     | t :: ts1 =>
-      match (match t with TLBracket => Some false | TQLBracket => Some true | _ => None end) with
-      | None => None
-      | Some opt =>
+      if tis t TLBracket || tis t TQLBracket then
+        let opt := tis t TQLBracket in
         let c' := (S (fst c), snd c) in
         if maxb <? S (fst c) then None else
-        match sub_opt c' (match ts1 with TColon :: _ => true | _ => false end) ts1 with
+        match sub_opt c' (hd_is ts1 TColon) ts1 with
         | None => None
         | Some (start, ts2) =>
-          match ts2 with
-          | TColon :: ts3 =>
-            match sub_opt c' (match ts3 with TColon :: _ | TRBracket :: _ => true | _ => false end) ts3 with
+          if hd_is ts2 TColon then
+            let ts3 := tl ts2 in
+            match sub_opt c' (hd_is ts3 TColon || hd_is ts3 TRBracket) ts3 with
             | None => None
             | Some (stop, ts4) =>
-              let r3 := match ts4 with
-                        | TColon :: ts5 =>
-                            match P c' 0 ts5 with Some (s, ts6) => Some (Some s, ts6) | None => None end
-                        | _ => Some (None, ts4)
-                        end in
+              let r3 := if hd_is ts4 TColon then
+                          match P c' 0 (tl ts4) with Some (s, ts6) => Some (Some s, ts6) | None => None end
+                        else Some (None, ts4) in
               match r3 with
-              | Some (step, TRBracket :: ts7) => Some (ESlice e start stop step opt, ts7)
-              | _ => None
+              | Some (step, ts6) =>
+                  if hd_is ts6 TRBracket then Some (ESlice e start stop step opt, tl ts6) else None
+              | None => None
               end
             end
-          | TRBracket :: ts3 =>
-            match start with Some i => Some (EItem e i opt, ts3) | None => None end
-          | _ => None
-          end
+          else if hd_is ts2 TRBracket then
+            match start with Some i => Some (EItem e i opt, tl ts2) | None => None end
+          else None
         end
-      end
+      else None
     | [] => None
     end.
 
@@ -332,73 +362,79 @@ Section Body.
   Fixpoint chain_loop (k : nat) (c : nat * nat) (e : expr) (ts : list token) : pres :=
     match k with 0 => None | S k' =>
     match ts with
-    | TDot :: ts1 =>
-        match ts1 with TIdent a :: ts2 => chain_loop k' c (EAttr e a false) ts2 | _ => None end
-    | TQDot :: ts1 =>
-        match ts1 with TIdent a :: ts2 => chain_loop k' c (EAttr e a true) ts2 | _ => None end
-    | TLBracket :: _ | TQLBracket :: _ =>
+    | [] => Some (e, ts)
+    | t :: ts1 =>
+      if tis t TDot || tis t TQDot then
+        match ts1 with
+        | t2 :: ts2 =>
+            match as_ident t2 with
+            | Some a => chain_loop k' c (EAttr e a (tis t TQDot)) ts2
+            | None => None
+            end
+        | [] => None
+        end
+      else if tis t TLBracket || tis t TQLBracket then
         match parse_subscript c e ts with Some (e', ts2) => chain_loop k' c e' ts2 | None => None end
-    | TLParen :: _ => None
-    | _ => Some (e, ts)
+      else if tis t TLParen then None
+      else Some (e, ts)
     end end.
 
   (* parse_ident (290-374) *)
   Definition parse_ident (c : nat * nat) (x : str) (ts : list token) : pres :=
-    match ts with
-    | TLParen :: _ =>
-        match parse_kwargs c ts with Some (kw, ts1) => Some (ECall x kw, ts1) | None => None end
-    | _ => chain_loop (S (List.length ts)) c (EVar x) ts
-    end.
+    if hd_is ts TLParen then
+      match parse_kwargs c ts with Some (kw, ts1) => Some (ECall x kw, ts1) | None => None end
+    else chain_loop (S (List.length ts)) c (EVar x) ts.
 
   (* unary operators (711-735) *)
   Definition parse_unary (c : nat * nat) (u : unop) (ts : list token) : pres :=
-    let go := match P c (un_bp bp u) ts with Some (e, ts') => Some (EUn u e, ts') | None => None end in
-    match ts with
-    | TMinus :: _ => None
-    | TIdent s :: _ => match kw_of s with KNot => None | _ => go end
-    | _ => go
+    if hd_is ts TMinus then None else
+    match hd_kw ts with
+    | KNot => None
+    | _ => match P c (un_bp bp u) ts with Some (e, ts') => Some (EUn u e, ts') | None => None end
     end.
 
   (* parse_list_comprehension (1010-1076); ts starts at `for`; c0 = the counters of the
      enclosing frame (array_dimension already decremented, 662) *)
   Definition parse_comp (c0 : nat * nat) (e : expr) (ts : list token) : pres :=
     match ts with
-    | TIdent f :: TIdent v1 :: ts1 =>
-      match kw_of f with
-      | KFor =>
+    | _ :: t1 :: ts1 =>
+      match as_ident t1 with
+      | None => None
+      | Some v1 =>
         if is_reserved v1 then None else
         let hdr :=
-          match ts1 with
-          | TComma :: TIdent v2 :: ts2 => if is_reserved v2 then None else Some (Some v1, v2, ts2)
-          | TComma :: _ => None
-          | _ => Some (None, v1, ts1)
-          end in
+          if hd_is ts1 TComma then
+            match tl ts1 with
+            | t2 :: ts2 =>
+                match as_ident t2 with
+                | Some v2 => if is_reserved v2 then None else Some (Some v1, v2, ts2)
+                | None => None
+                end
+            | [] => None
+            end
+          else Some (None, v1, ts1) in
         match hdr with
-        | Some (k, v, TIdent i :: ts3) =>
-          match kw_of i with
+        | None => None
+        | Some (k, v, ts3) =>
+          match hd_kw ts3 with
           | KIn =>
-            match P c0 (S (tern_l bp)) ts3 with
+            match P c0 (S (tern_l bp)) (tl ts3) with
             | Some (target, ts4) =>
-              let rc := match ts4 with
-                        | TIdent w :: ts5 =>
-                            match kw_of w with
-                            | KIf => match P c0 (S (tern_l bp)) ts5 with
-                                     | Some (cd, ts6) => Some (Some cd, ts6) | None => None end
-                            | _ => Some (None, ts4)
-                            end
+              let rc := match hd_kw ts4 with
+                        | KIf => match P c0 (S (tern_l bp)) (tl ts4) with
+                                 | Some (cd, ts6) => Some (Some cd, ts6) | None => None end
                         | _ => Some (None, ts4)
                         end in
               match rc with
-              | Some (cd, TRBracket :: ts7) => Some (EComp e k v target cd, ts7)
-              | _ => None   (* a second `for`, or anything else *)
+              | Some (cd, ts7) =>
+                  if hd_is ts7 TRBracket then Some (EComp e k v target cd, tl ts7) else None
+              | None => None
               end
             | None => None
             end
           | _ => None
           end
-        | _ => None
         end
-      | _ => None
       end
     | _ => None
     end.
@@ -406,36 +442,29 @@ Section Body.
   (* parse_array (624-680), after the `[`; c1 = counters with array_dimension incremented *)
   Fixpoint array_loop (k : nat) (c0 c1 : nat * nat) (items : list (bool * expr)) (ts : list token) : pres :=
     match k with 0 => None | S k' =>
-    match ts with
-    | TRBracket :: ts' => Some (fold_array items, ts')
-    | _ =>
-      let after_comma :=
-        match items with
-        | [] => Some ts
-        | _ => match ts with TComma :: ts' => Some ts' | _ => None end
-        end in
-      match after_comma with
-      | None => None
-      | Some (TRBracket :: ts') => Some (fold_array items, ts')
-      | Some (TSpread :: ts1) =>
-          match P c1 0 ts1 with
-          | Some (e, ts2) => array_loop k' c0 c1 (items ++ [(true, e)]) ts2
-          | None => None
-          end
-      | Some ts1 =>
-          match P c1 0 ts1 with
-          | Some (e, ts2) =>
-              match items, ts2 with
-              | [], TIdent f :: _ =>
-                  match kw_of f with
-                  | KFor => parse_comp c0 e ts2
-                  | _ => array_loop k' c0 c1 (items ++ [(false, e)]) ts2
-                  end
-              | _, _ => array_loop k' c0 c1 (items ++ [(false, e)]) ts2
-              end
-          | None => None
-          end
-      end
+    if hd_is ts TRBracket then Some (fold_array items, tl ts) else
+    let after_comma :=
+      match items with
+      | [] => Some ts
+      | _ => if hd_is ts TComma then Some (tl ts) else None
+      end in
+    match after_comma with
+    | None => None
+    | Some ts1 =>
+      if hd_is ts1 TRBracket then Some (fold_array items, tl ts1) else
+      if hd_is ts1 TSpread then
+        match P c1 0 (tl ts1) with
+        | Some (e, ts2) => array_loop k' c0 c1 (items ++ [(true, e)]) ts2
+        | None => None
+        end
+      else
+        match P c1 0 ts1 with
+        | Some (e, ts2) =>
+            let is_for := match items with [] => match hd_kw ts2 with KFor => true | _ => false end | _ => false end in
+            if is_for then parse_comp c0 e ts2
+            else array_loop k' c0 c1 (items ++ [(false, e)]) ts2
+        | None => None
+        end
     end end.
 
   Definition parse_array (c : nat * nat) (ts : list token) : pres :=
@@ -445,35 +474,36 @@ Section Body.
   (* parse_map (552-622), after the `{` *)
   Fixpoint map_loop (k : nat) (c : nat * nat) (es : list (option mkey * expr)) (ts : list token) : pres :=
     match k with 0 => None | S k' =>
-    match ts with
-    | TRBrace :: ts' => Some (fold_map es, ts')
-    | _ =>
-      let after_comma :=
-        match es with
-        | [] => Some ts
-        | _ => match ts with TComma :: ts' => Some ts' | _ => None end
-        end in
-      match after_comma with
-      | None => None
-      | Some (TRBrace :: ts') => Some (fold_map es, ts')
-      | Some (TSpread :: ts1) =>
-          match P c 0 ts1 with
-          | Some (e, ts2) => map_loop k' c (es ++ [(None, e)]) ts2
-          | None => None
-          end
-      | Some (t :: TColon :: ts1) =>
-          match (match t with
-                 | TStr s => Some (MKStr s) | TInt z => Some (MKInt z) | TBool b => Some (MKBool b)
-                 | _ => None end) with
-          | Some key =>
-              match P c 0 ts1 with
-              | Some (e, ts2) => map_loop k' c (es ++ [(Some key, e)]) ts2
-              | None => None
-              end
-          | None => None
-          end
-      | Some _ => None
-      end
+    if hd_is ts TRBrace then Some (fold_map es, tl ts) else
+    let after_comma :=
+      match es with
+      | [] => Some ts
+      | _ => if hd_is ts TComma then Some (tl ts) else None
+      end in
+    match after_comma with
+    | None => None
+    | Some ts1 =>
+      if hd_is ts1 TRBrace then Some (fold_map es, tl ts1) else
+      if hd_is ts1 TSpread then
+        match P c 0 (tl ts1) with
+        | Some (e, ts2) => map_loop k' c (es ++ [(None, e)]) ts2
+        | None => None
+        end
+      else
+        match ts1 with
+        | t :: ts1' =>
+            match mkey_of_tok t with
+            | Some key =>
+                if hd_is ts1' TColon then
+                  match P c 0 (tl ts1') with
+                  | Some (e, ts2) => map_loop k' c (es ++ [(Some key, e)]) ts2
+                  | None => None
+                  end
+                else None
+            | None => None
+            end
+        | [] => None
+        end
     end end.
 
   Definition parse_map (c : nat * nat) (ts : list token) : pres := map_loop (S (List.length ts)) c [] ts.
@@ -488,10 +518,7 @@ Section Body.
       | LBreak => Some (lhs, ts)
       | LNot =>
           if lbp bp OIn <? min then Some (lhs, ts) else
-          match ts1 with
-          | TIdent s :: _ => match kw_of s with KIn => loop c min k' true lhs ts1 | _ => None end
-          | _ => None
-          end
+          match hd_kw ts1 with KIn => loop c min k' true lhs ts1 | _ => None end
       | LSub =>
           match parse_subscript c lhs ts with
           | Some (e, ts2) => loop c min k' neg e ts2
@@ -500,35 +527,35 @@ Section Body.
       | LIf =>
           if tern_l bp <? min then Some (lhs, ts) else
           match P c 0 ts1 with
-          | Some (cnd, TIdent s :: ts2) =>
-              match kw_of s with
-              | KElse => match P c 0 ts2 with
+          | Some (cnd, ts2) =>
+              match hd_kw ts2 with
+              | KElse => match P c 0 (tl ts2) with
                          | Some (f, ts3) => Some (ETern cnd lhs f, ts3)
                          | None => None
                          end
               | _ => None
               end
-          | _ => None
+          | None => None
           end
       | LOp o =>
           if lbp bp o <? min then Some (lhs, ts) else
-          let '(neg1, ts2) :=
-            match o, ts1 with
-            | OIs, TIdent s :: ts1' => match kw_of s with KNot => (true, ts1') | _ => (neg, ts1) end
-            | _, _ => (neg, ts1)
-            end in
+          (* `is not` (846-852) *)
+          let isnot := bop_eqb o OIs && (match hd_kw ts1 with KNot => true | _ => false end) in
+          let neg1 := if isnot then true else neg in
+          let ts2 := if isnot then tl ts1 else ts1 in
           let r :=
-            match o with
-            | OIs => match parse_named c ts2 with
-                     | Some (n, kw, ts3) => Some (ETest lhs n kw, ts3) | None => None end
-            | OPipe => match parse_named c ts2 with
-                       | Some (n, kw, ts3) => Some (EFilter lhs n kw, ts3) | None => None end
-            | _ => match P c (rbp bp o) ts2 with
-                   | Some (rhs, ts3) =>
-                       if is_concat o && is_unary rhs then None else Some (EBin o lhs rhs, ts3)
-                   | None => None
-                   end
-            end in
+            if bop_eqb o OIs then
+              match parse_named c ts2 with
+              | Some (n, kw, ts3) => Some (ETest lhs n kw, ts3) | None => None end
+            else if bop_eqb o OPipe then
+              match parse_named c ts2 with
+              | Some (n, kw, ts3) => Some (EFilter lhs n kw, ts3) | None => None end
+            else
+              match P c (rbp bp o) ts2 with
+              | Some (rhs, ts3) =>
+                  if is_concat o && is_unary rhs then None else Some (EBin o lhs rhs, ts3)
+              | None => None
+              end in
           match r with
           | None => None
           | Some (e, ts3) => loop c min k' false (if neg1 then EUn UNot e else e) ts3
@@ -555,7 +582,11 @@ Section Body.
           end
       | TLBrace => parse_map c ts1
       | TLBracket => parse_array c ts1
-      | TLParen => match P c 0 ts1 with Some (e, TRParen :: ts2) => Some (e, ts2) | _ => None end
+      | TLParen =>
+          match P c 0 ts1 with
+          | Some (e, ts2) => if hd_is ts2 TRParen then Some (e, tl ts2) else None
+          | None => None
+          end
       | _ => None
       end
     end.
